@@ -558,10 +558,26 @@ func keyNames(ncols int) []string {
 type keyStruct struct{ K1, K2, K3 any }
 
 func encoderCases(rng *RNG, o *Out, n int) error {
+	// the collision search around every encoded tuple (c04float.go: P lines)
+	var sites [4][]pairSite
+	for nc := 1; nc <= 3; nc++ {
+		s, stop, err := pairSites(nc)
+		if err != nil {
+			return err
+		}
+		defer stop()
+		sites[nc] = s
+	}
+	budget := map[string]int{}
 	for i := 0; i < n; i++ {
 		ncols := rng.Intn(4)
-		pool := genTuples(rng, ncols, true)
+		pool := genTuplesF(rng, ncols, true, 5)
 		for _, t := range pool {
+			if ncols > 0 {
+				if err := pairCases(rng, o, sites[ncols], t, budget); err != nil {
+					return err
+				}
+			}
 			r := grow{id: 1, vals: t}
 			m := r.toMap()
 			vt := make([]string, len(t))
@@ -633,7 +649,7 @@ func encoderCases(rng *RNG, o *Out, n int) error {
 // aggregator API: one batch = the rows added between two Resets
 func aggregatorCase(rng *RNG, o *Out) error {
 	ncols := rng.Intn(4)
-	pool := genTuples(rng, ncols, true)
+	pool := genTuplesF(rng, ncols, true, 5)
 	rows := genRows(rng, pool, 1+rng.Intn(14), 1)
 	ga := aggregator.NewGroupAggregator(keyNames(ncols), []aggregator.AggregationField{
 		{InputField: "*", AggregateType: aggregator.Count, OutputAlias: "c"},
@@ -654,13 +670,16 @@ func aggregatorCase(rng *RNG, o *Out) error {
 	sort.SliceStable(out, func(i, j int) bool { return len(out[i].ids) > 0 && len(out[j].ids) > 0 && out[i].ids[0] < out[j].ids[0] })
 	o.Line("C04 G agg %d %d %s # %s", ncols, len(rows), rowsTok(rows), resultsTok(out, false))
 	o.Count(fmt.Sprintf("aggregator cols=%d", ncols))
+	if isFloatPool(pool) {
+		o.Count("aggregator near-float keys")
+	}
 	return nil
 }
 
 // session window through its API (processing time): every session is one batch of one key
 func sessionAPICase(rng *RNG) (string, error) {
 	ncols := 1 + rng.Intn(3)
-	pool := genTuples(rng, ncols, false)
+	pool := genTuplesF(rng, ncols, false, 5)
 	rows := genRows(rng, pool, 2+rng.Intn(12), 1)
 	sw, err := window.NewSessionWindow(types.WindowConfig{Type: "session", Params: []any{60 * time.Millisecond}, GroupByKeys: keyNames(ncols)})
 	if err != nil {
@@ -719,7 +738,7 @@ func sessionAPICase(rng *RNG) (string, error) {
 // time windows through SQL: tumbling / session, processing time
 func timeWindowSQLCase(rng *RNG, kind string) (string, error) {
 	ncols := 1 + rng.Intn(3)
-	pool := genTuples(rng, ncols, false)
+	pool := genTuplesF(rng, ncols, false, 3) // every batch of a time window goes through the aggregator's key
 	rows := genRows(rng, pool, 2+rng.Intn(12), 1)
 	win := "TumblingWindow('150ms')"
 	if kind == "session" {
@@ -843,7 +862,7 @@ func fnKeyCase2(rng *RNG, o *Out) error {
 func genCountingRows(rng *RNG) (n, ncols int, rows []grow) {
 	n = []int{1, 2, 3, 7}[rng.Intn(4)]
 	ncols = rng.Intn(4)
-	pool := genTuples(rng, ncols, false)
+	pool := genTuplesF(rng, ncols, false, 5)
 	l := rng.Intn(6 * n)
 	if rng.Intn(3) == 0 { // exact multiples
 		l = n * (1 + rng.Intn(5))
